@@ -102,6 +102,9 @@ def run(ctx):
             ctx.cov['traces_validated_against_impl'] += len(res)
             bad = [i for i, r in enumerate(res) if not r]
             if bad: ctx.broken.append(f'generated Frobenius model and implementation disagree on {len(bad)} case(s), first: {fterms[bad[0]][:300]}')
+    _A = qx.to_np(rand_pyth(rng, 3, 4))
+    for _o in (1, np.inf, 'fro', 2):
+        cm.layout_sweep(ctx, qx, 'C15', f'matrix_norm({_o})', lambda X, _o=_o: utils.matrix_norm(X, _o), _A, {'shape': [3, 4], 'ord': str(_o)})
     ctx.cov['rule'] = ('random matrices (shapes up to 4x5, rectangular included) whose entries have integer moduli (so 1-/inf-norms and most Frobenius norms are exact in binary64): every definition compared exactly, '
                        'all eight Frobenius entry points against each other and against the generated radicand, norm axioms on pairs/triples, spectral-vs-Frobenius-vs-rank and 2-1-inf inequalities, unknown norm spellings. Distinct = new input.')
     return cm.finish(ctx, 'proof', '', ASSUME)
